@@ -97,7 +97,7 @@ th!(c01_q_finalise_ack_other_incomplete, 14, {
     }
 });
 //# funcs=RecvTransaction::process_pdu(Metadata),check_finished,finalize_receive,verify_checksum,finalize_file; bound=acknowledged mode, metadata arrives after EOF, file completely held; stubs=S1,S2,S3,S5
-th!(c01_q_finalise_ack_metadata_last, 14, { finalise_step(TransmissionMode::Acknowledged, 1, 1) });
+th!(c01_t_finalise_ack_metadata_last, 14, { finalise_step(TransmissionMode::Acknowledged, 1, 1) });
 //# funcs=RecvTransaction::process_pdu(EoF) unacknowledged,finalize_receive,verify_checksum,finalize_file; bound=unacknowledged mode, file completely held; stubs=S1,S2,S3,S5
 th!(c01_q_finalise_unack_complete, 14, { finalise_step(TransmissionMode::Unacknowledged, 1, 0) });
 //# funcs=RecvTransaction::process_pdu(EoF) unacknowledged,finalize_receive; bound=unacknowledged mode, head missing (held (2,4)); stubs=S1,S2,S3,S5
